@@ -315,12 +315,17 @@ class Output(BaseOutput):
             return values
         units = getattr(self.nc.variables[var], "units", "")
         unit_name, since, reference = units.partition(" since ")
+        unit = self.time_unit
+        reference_time = self.timer.reference_time
         if since:
-            unit = dict(seconds="s", minutes="m", hours="h", days="D")[unit_name.strip()]
-            reference_time = np.datetime64(reference.strip(), "s")
-        else:
-            unit = self.time_unit
-            reference_time = self.timer.reference_time
+            # The unit by its first letter (seconds, second, s, ...), as the
+            # warm start reads it
+            letter = unit_name.strip().lower()[:1]
+            unit = dict(s="s", m="m", h="h", d="D").get(letter, unit)
+            try:
+                reference_time = np.datetime64(reference.strip(), "s")
+            except ValueError:  # Not a time numpy can read, keep the default
+                pass
         delta = values.astype("M8[s]") - reference_time
         return delta / np.timedelta64(1, unit)
 
